@@ -1184,7 +1184,16 @@ pub fn fat_copies_differ(img: &Image, g: &Geo) -> Option<String> {
     while off < len {
         let n = step.min(len - off) as usize;
         let a_off = g.fat_off(0) + off;
-        // quick skip if all copies unmapped & page aligned
+        // quick skip when the whole range lies in unmapped pages of equal fill in every copy
+        if let Some(fa) = img.unmapped_fill(a_off) {
+            if img.unmapped_fill(a_off + n as u64 - 1) == Some(fa) && (1..g.nfats).all(|c| {
+                let b_off = g.fat_off(c) + off;
+                img.unmapped_fill(b_off) == Some(fa) && img.unmapped_fill(b_off + n as u64 - 1) == Some(fa)
+            }) {
+                off += n as u64;
+                continue;
+            }
+        }
         let a = img.bytes(a_off, n);
         for c in 1..g.nfats {
             let b = img.bytes(g.fat_off(c) + off, n);
